@@ -74,6 +74,9 @@ class DeviceConn:
         self.client_closed_at: float | None = None
         self.outbox: list[tuple[Any, ...]] | None = None
         self.sent: list[dict[str, Any]] = []
+        self.tx_offset = 0                                   # bytes of the device->client stream put on the wire so far
+        self.disc_req_ends: list[tuple[int, int]] = []       # (stream offset just behind a well-formed DisconnectRequest frame, seq)
+        self.taints: list[int] = []                          # seqs at which the device emitted something that is not a well-formed message
         self.first_byte_seq: int | None = None
         self.handshake_on_wire_at: float | None = None
         self.immediate = False   # True: bypass the event queue (bytes are in the socket buffer at once)
@@ -233,12 +236,14 @@ class DeviceConn:
     def send_msg(self, msg: Any, delay: float | None = None) -> None:
         name = type(msg).__name__
         self.sent.append({"seq": self.sim.next_seq(), "t": self.sim.clock, "name": name, "msg": msg})
-        self._out(("msg", self.proto.id_of(name), msg.SerializeToString()), delay)
+        self._out(("msg", self.proto.id_of(name), msg.SerializeToString(), "valid"), delay)
 
     def send_id(self, ty: int, payload: bytes, delay: float | None = None) -> None:
+        self.taints.append(self.sim.next_seq())
         self._out(("msg", ty, payload), delay)
 
     def send_raw(self, data: bytes, delay: float | None = None) -> None:
+        self.taints.append(self.sim.next_seq())
         self._out(("raw", data), delay)
 
     def eof(self, delay: float | None = None) -> None:
@@ -262,11 +267,19 @@ class DeviceConn:
             if sock.closed:
                 return
             buf = b""
+            produced = 0
             for it in items:
                 if it[0] == "raw":
                     buf += it[1]
+                    produced += len(it[1])
                 elif it[0] == "msg":
-                    buf += self.encode_id(it[1], it[2])
+                    frame = self.encode_id(it[1], it[2])
+                    buf += frame
+                    produced += len(frame)
+                    if it[1] == 5 and len(it) > 3:
+                        # a well-formed DisconnectRequest: the stream offset at which its frame ends (boundary observation for C07: the client's
+                        # socket has handed over everything up to here <=> the device's request reached the library)
+                        self.disc_req_ends.append((self.tx_offset + produced, self.sim.next_seq()))
                 else:
                     if buf:
                         sock.rx.append(buf)
@@ -294,6 +307,8 @@ class DeviceConn:
                     sock.rx.append(buf[prev:])
                 else:
                     sock.rx.append(buf)
+
+            self.tx_offset += produced
 
         if self.immediate:
             put()
